@@ -57,6 +57,43 @@ def _names_called(d):
     return res
 
 
+_SRC_CACHE = {}
+
+
+def _real_callees(qualname):
+    """qualified names of the repository functions called in the body of the real function `qualname`, resolved through
+    the module's own definitions and its `from X import name` statements"""
+    mod, fn = qualname.rsplit(".", 1)
+    path = os.path.join(R.repo_path(), *mod.split(".")) + ".py"
+    if path not in _SRC_CACHE:
+        try:
+            _SRC_CACHE[path] = ast.parse(open(path).read())
+        except Exception:
+            _SRC_CACHE[path] = None
+    tree = _SRC_CACHE[path]
+    res = set()
+    if tree is None:
+        return res
+    scope = {}
+    pkg = mod.rsplit(".", 1)[0]
+    for node in tree.body:
+        if isinstance(node, ast.FunctionDef):
+            scope[node.name] = mod + "." + node.name
+        elif isinstance(node, ast.ImportFrom):
+            base = node.module or ""
+            if node.level:
+                parts = mod.split(".")[: -node.level]
+                base = ".".join(parts + ([base] if base else []))
+            for a in node.names:
+                scope[a.asname or a.name] = base + "." + a.name
+    for node in ast.walk(tree):
+        if isinstance(node, ast.FunctionDef) and node.name == fn:
+            for n in ast.walk(node):
+                if isinstance(n, ast.Call) and isinstance(n.func, ast.Name) and n.func.id in scope:
+                    res.add(scope[n.func.id])
+    return res
+
+
 def units_for(db, prop):
     """contracts tagged with the property, plus the lemmas and specs they (transitively) use -- a lemma that no
     contract or lemma of this property refers to is not re-proved here"""
@@ -70,6 +107,22 @@ def units_for(db, prop):
             roots.append(cd)
     if not units:
         return []  # no function of this property is under a U contract: nothing to discharge
+    # callee closure: a function under contract is verified against the CONTRACTS of the functions it calls, so those
+    # callees' own contracts belong to this property's proof as well
+    have = {q for (_k, q, _v) in units}
+    todo_c = [q for q in sorted(have)]
+    while todo_c:
+        q = todo_c.pop()
+        for q2 in sorted(_real_callees(q)):
+            cd2 = db.contracts.get(q2)
+            if cd2 is None or q2 in have or cd2.options.get("inline"):
+                continue
+            have.add(q2)
+            roots.append(cd2)
+            if not cd2.options.get("trusted"):
+                for v in R.variants_of(cd2):
+                    units.append(("contract", q2, v))
+                todo_c.append(q2)
     for n, ld in db.lemmas.items():
         if prop in ld.options.get("props", []):
             roots.append(ld)
